@@ -22,7 +22,10 @@ def run(ctx):
                 kind, rdev = 'chr', (1, 3)     # corpus: the repaired defect F2
             umask = rng.choice([0, 0o022])
             intree = rng.random() < 0.5
-            destk = rng.choice(['absent', 'absent', 'file', 'fifo', 'link-live', 'link-dangling', 'dir'])
+            destk = rng.choice(['absent', 'absent', 'file', 'fifo', 'link-live', 'link-dangling', 'dir', 'same-kind'])
+            if i in (3, 6, 7):
+                destk = 'same-kind'             # corpus: an existing node of the same type and mode but ANOTHER device number
+                if i != 7: kind, rdev = 'chr', (1, 5)
             noclob = rng.random() < 0.25
             driver = ['parfile', 'parblock'][i % 2]
             for sub in ('S', 'D', 'x'):
@@ -45,6 +48,10 @@ def run(ctx):
             elif destk == 'link-live': tree += [dict(p='x', k='file', mode=0o600, data=[('seg', 5, 3)]), dict(p=dst_rel, k='link', target=root + '/x')]
             elif destk == 'link-dangling': tree.append(dict(p=dst_rel, k='link', target=root + '/nowhere'))
             elif destk == 'dir': tree.append(dict(p=dst_rel, k='dir', mode=0o755))
+            elif destk == 'same-kind':
+                # what an earlier run left: same type, the mode this run would give, but (for devices) another device number
+                if kind == 'sock': destk = 'fifo'; tree.append(dict(p=dst_rel, k='fifo', mode=0o600))
+                else: tree.append(dict(p=dst_rel, k=kind, mode=mode & ~umask & 0o7777, rdev=(rdev[0], rdev[1] ^ 2) if kind in ('chr', 'blk') else (0, 0), exact_mode=True))
             try:
                 scen.materialise(root, tree)
             except OSError as e:
@@ -70,7 +77,7 @@ def run(ctx):
                 if r.cls == '0':
                     ctx.violation(f'case-{i}-noclobber.json', dict(argv=argv, dest=destk), 'C14/C08: collision under --no-clobber but exit 0')
                 continue
-            dest_exists = destk in ('file', 'fifo', 'link-live', 'dir')          # Path::exists() follows links
+            dest_exists = destk in ('file', 'fifo', 'link-live', 'dir', 'same-kind')          # Path::exists() follows links
             dest_lexists = destk != 'absent'
             removable = destk != 'dir'
             try:
@@ -122,8 +129,26 @@ def run(ctx):
                     ctx.cov['disagreements_checked'] += 1
                     ctx.violation(f'case-{i}-corr.json', dict(argv=argv, kind=kind, dest=destk, model=m, exit=r.cls, stderr=r.stderr[-300:], correspondence='Operation::Special + copy_node vs Xcp.specialProgram'),
                                   f'model/implementation disagree on a {kind} onto {destk}: model {m!r}, exit {r.cls}', no_input=True)
+        # ---- --no-clobber and an entry that appears AFTER the walker's probe (two sources with one base name: the first creates
+        # out/x while the second is already queued): whoever creates out/x first, it is never unlinked or replaced
+        for driver in ('parfile', 'parblock'):
+            for plan in ([], ['stallp mknodat * 300000'], ['stall mknodat 200000', 'sched 5 delay 2']):
+                for sub in ('S', 'D', 'x'):
+                    p = os.path.join(root, sub)
+                    if os.path.isdir(p) and not os.path.islink(p): shutil.rmtree(p, ignore_errors=True)
+                    elif os.path.lexists(p): os.unlink(p)
+                scen.materialise(root, [dict(p='S', k='dir', mode=0o755), dict(p='S/a', k='dir', mode=0o755), dict(p='S/b', k='dir', mode=0o755), dict(p='D', k='dir', mode=0o755),
+                                        dict(p='S/a/x', k='chr', mode=0o644, rdev=(1, 3)), dict(p='S/b/x', k='fifo', mode=0o600)])
+                argv = ['--driver', driver, '-w', '1', '--no-clobber', 'S/a/x', 'S/b/x', 'D']
+                r = scen.run_xcp(root, argv, umask=0o022, timeout=30, plan=plan or None, trace=True)
+                ctx.count(f'noclobber_race.exit.{r.cls}'); ctx.case(('noclobber-race', driver, tuple(plan)), True)
+                unl = [e for e in r.trace if e['sys'] in ('unlink', 'unlinkat') and e['ret'] == 0 and (e.get('path') or '').endswith('D/x')]
+                mk = [e for e in r.trace if e['sys'] == 'mknodat' and e['ret'] == 0 and (e.get('path') or '').endswith('D/x')]
+                if unl or len(mk) > 1:
+                    ctx.violation(f'noclobber-race-{driver}-{len(plan)}.json', dict(argv=argv, plan=plan, exit=r.cls, unlinks=len(unl), mknods=len(mk), stderr=r.stderr[-300:]),
+                                  f'C14: under --no-clobber the entry D/x, created during this run by the first source, was removed/replaced by the second ({driver}, plan {plan}, exit {r.cls})')
     ctx.cov['rule'] = ('kind {fifo, socket, chr, blk} x mode (incl. set-id/sticky) x major/minor x umask {0, 022} x sole source / inside a tree x destination '
-                       '{absent, file, fifo, live link, dangling link, directory} x -n x driver. distinct = distinct tuple')
+                       '{absent, file, fifo, live link, dangling link, directory, node of the same type and mode with another device number} x -n x driver; two sources with one base name under -n. distinct = distinct tuple')
     ctx.assumptions += ['runs as root with CAP_MKNOD']
 
 
